@@ -5,7 +5,7 @@
    A key is a list of positions into the current array: ANY order, repeats allowed; chains of any depth;
    both avoid_copies modes (pandas' normalisation of slices / masks / negative ints to positions is done by
    the harness and not modelled). *)
-From SA Require Import Base.Prelude Index.Index Index.Index_Spec View.View View.View_Spec View.View_Proofs View.View_Phrase Query.Phrase_Spec View.View_Phrase4.
+From SA Require Import Base.Prelude Index.Index Index.Index_Spec View.View View.View_Spec View.View_Proofs View.View_Phrase Query.Phrase_Spec View.View_Phrase4 Rebuild.Rebuild Rebuild.Element_Access.
 Open Scope N_scope.
 
 Theorem C06_selection_succeeds : forall docs bs ix avoid keys,
@@ -103,3 +103,12 @@ Theorem C06_score_commutes_any_query : forall docs bs ix avoid keys v ts idf k1 
     AOk (map (fun r => nth (N.to_nat r) s 0%Z) (compose_rows (rows0 docs) keys)).
 Proof. exact View_Phrase4.C06_score_commutes_any. Qed.
 Print Assumptions C06_score_commutes_any_query.
+
+(* element access: arr[i] on any chain of selections returns, for every row, the document's distinct terms and its length *)
+Theorem C06_element_access : forall docs bs ix avoid keys v els,
+  wf_docs docs -> index false bs docs = AOk ix -> valid_keys (length docs) keys ->
+  select_chain (of_index ix avoid) keys = AOk v -> elements_of v = AOk els ->
+  Forall2 (fun d e => el_len e = N.of_nat (length d) /\ forall t, In t (map fst (el_terms e)) <-> In t d)
+          (view_docs docs keys) els.
+Proof. exact element_access_ok. Qed.
+Print Assumptions C06_element_access.
